@@ -1,7 +1,7 @@
 #!/bin/bash
 # curate every seeded/incoming/<name>: two parallel streams; results appended to seeded/curation.log
 cd /verif
-declare -A EXTRA=( [C13_m3]="C13 C16" [C12_m1]="C12 C05" [C12_m3]="C12 C13" [C20_m1]="C20 C16" [C19_m3]="C19 C06" [C04_m3]="C04 C03 C05" [C11_m2]="C11 C02" [C11_m3]="C11 C05" [C08_m3]="C08 C07" [C02_m2]="C02 C11" )
+declare -A EXTRA=( [C13_m3]="C13 C16" [C12_m1]="C12 C05" [C12_m3]="C12 C13" [C20_m1]="C20 C16" [C19_m3]="C19 C06" [C04_m3]="C04 C03 C05" [C11_m2]="C11 C02" [C11_m3]="C11 C05" [C08_m3]="C08 C07" [C02_m2]="C02 C11" [C01_r2m2]="C01 C02" [C13_r2m2]="C13 C16" [C11_r2m2]="C11 C05" [C04_r2m1]="C04 C03" )
 run_one() {
   n=$1
   d=seeded/incoming/$n
@@ -9,8 +9,9 @@ run_one() {
   tools/curate.sh $n $d/patch.diff $d/demo.py $checks >> seeded/curation.log 2>&1
 }
 names=($(ls seeded/incoming | sort))
-half=$(( (${#names[@]} + 1) / 2 ))
-( for n in "${names[@]:0:$half}"; do run_one $n; done ) &
-( for n in "${names[@]:$half}"; do run_one $n; done ) &
+# three parallel streams (every third name each)
+for k in 0 1 2; do
+  ( i=0; for n in "${names[@]}"; do if [ $(( i % 3 )) -eq $k ]; then run_one $n; fi; i=$((i+1)); done ) &
+done
 wait
 echo "CURATION DONE" >> seeded/curation.log
